@@ -154,7 +154,7 @@ def build_call(L, tool, par, S, F, rec):
         fn = getattr(L, tool)
         return lambda: fn(S[0])
     if tool == "sum":
-        start = 0 if par["startv"] == "zero" else StartObj("startobj", (), rec)
+        start = 0 if par["startv"] == "zero" else "" if par["startv"] == "str" else StartObj("startobj", (), rec)
         rec.start_obj = start
         return lambda: L.sum(S[0], start)
     if tool == "reduce":
@@ -166,8 +166,10 @@ def build_call(L, tool, par, S, F, rec):
         kw = {}
         if par["key"]:
             kw["key"] = F("key")
-        if par["dflt"]:
+        if par["dflt"] == "fresh" or (par["dflt"] == "first" and not rec.first_item):
             kw["default"] = Node("default")
+        elif par["dflt"] == "first":
+            kw["default"] = rec.first_item[0]
         return lambda: fn(S[0], **kw)
     if tool == "sorted":
         kw = {"key": F("key")} if par["key"] else {}
@@ -247,6 +249,7 @@ def execute(case, L, *, sync=False, flav=None, susp=0, fault_kind="exc", cancel_
     flav = flav or DEFAULT_FLAV
     rec = Recorder()
     rec.susp = 0 if sync else susp
+    rec.first_item = []
     rec.fault = fault_plan(case)
     if rec.fault is not None:
         rec.fault_exc = {"exc": InjectedError, "typeerr": InjectedTypeError, "cancel": Cancelled}[fault_kind]("injected")
@@ -260,6 +263,8 @@ def execute(case, L, *, sync=False, flav=None, susp=0, fault_kind="exc", cancel_
         if tool == "await_each":
             fl = "iter"     # await_each takes a plain iterable of awaitables
         items_ = _items_for(tool, i, keys)
+        if i == 1:
+            rec.first_item = items_[:1]
         if tool == "await_each" or (tool == "any_iter" and par["aw"]):
             items_ = [Aw(rec, x) for x in items_]
         obj, h = make_source(fl, rec, i, items_)
